@@ -103,6 +103,11 @@ class SyncWorker(base.Worker):
                     if not self.alive:
                         break
 
+                    # every request gets the whole timeout, as with a
+                    # single listener: the requests of the other ready
+                    # listeners must not count against it
+                    self.notify()
+
                     try:
                         self.accept(listener)
                     except OSError as e:
